@@ -345,3 +345,15 @@ CHECKS["C15"]["text"] += (" Every refused input list also arrives at the gate th
 CHECKS["C17"]["text"] += (" One generated model holds tensors of a mebibyte (a raw Constant decoded in every Run, a lower-rank bias weight shared "
                           "by all Runs): sizes at which a library may switch to another strategy.")
 CHECKS["C18"]["text"] += " Graphs with sparse initializer entries (complete, without values, without indices, empty) are loaded: the load returns."
+
+# ---- round 15
+CHECKS["C01"]["text"] += " Every model case is repeated with the default operator-set domain spelled out on every node (\"ai.onnx\")."
+CHECKS["C07"]["text"] += " Tiled cases of these operators reach 4.4 million elements (an odd multiple)."
+CHECKS["C09"]["text"] += " MIN, MIN+1, MAX-1 and MAX of int64 / int32 pass through ArgMax, ReduceMax and ReduceMin (neighbours one apart at the ends of the range)."
+CHECKS["C11"]["text"] += " Floats strictly between -1 and 0 convert to 0 of every unsigned type."
+CHECKS["C12"]["text"] += " The raw payload is also decoded from a sub-slice starting at every address modulo 8."
+CHECKS["C13"]["text"] += (" After the introspection results have been compared, the harness writes into everything that was returned and compares "
+                          "again: the model reports and enforces the declared signature as before.")
+CHECKS["C14"]["text"] += " The tiling law along a middle or the last axis stretches an operand to several hundred thousand along that axis."
+CHECKS["C18"]["text"] += (" Well-formed models with 10, 5000 and 400000 nested subgraphs are loaded; a runtime abort is attributed to the innermost "
+                          "frame that belongs to the library or to the harness.")
